@@ -9,4 +9,8 @@ if [ ! -x bin/bmcverif ] || [ -n "$(find checker -newer bin/bmcverif -name '*.go
   mkdir -p bin
   (cd checker && go build -o ../bin/bmcverif .)
 fi
+if [ -n "$VERIF_OUT" ]; then
+  mkdir -p "$VERIF_OUT" && cp known_findings.jsonl "$VERIF_OUT"/ 2>/dev/null || true
+  exec ./bin/bmcverif check -p "$1" -tier "${2:-quick}" -repo "${VERIF_REPO:-/repo}" -out "$VERIF_OUT"
+fi
 exec ./bin/bmcverif check -p "$1" -tier "${2:-quick}" -repo "${VERIF_REPO:-/repo}"
